@@ -29,7 +29,7 @@ EXPLANATION = (
     "decoded length >= 0 (returned cursor >= input cursor + prefix, <= len(data)); for each `for _ in range(count)` in "
     "a decoder every path through the body passes a checked primitive read."
 )
-SHARED = [('C05', ['R1'], 'decoders read counted arrays element by element through checked primitives')]
+SHARED = [('C05', ['R4'], 'compressed payloads are inflated by the library reader, which terminates (with an error) on a truncated stream'), ('C05', ['R1'], 'decoders read counted arrays element by element through checked primitives')]
 ASSUMPTIONS = ["CRC-32 detects all burst errors of length <= 32 bits", "struct.calcsize(fmt) >= 0; struct raises on malformed formats",
                "snappy library absent: xerial framing loop excluded from the termination claim"]
 READERS = ("relative_unpack", "read_short_bytes", "read_short_ascii", "read_short_text", "read_int_string")
@@ -198,7 +198,7 @@ def run(ctx):
     r.check(not hs2, "%s#no-handlers" % dm.qname, "_decode_message swallows exceptions", where(dm, dm.node))
 
     # ---- R4 cursor monotonicity of the primitives (linear symbolic evaluation of every return path)
-    r = ctx.rule("R4", "readers: on every normal exit the returned cursor >= input cursor + prefix and <= len(data)", 3, "E")
+    r = ctx.rule("R4", "readers: on every normal exit the returned cursor >= input cursor + prefix and <= len(data); only the field is copied", 6, "E")
     for name in ("read_short_bytes", "read_int_string", "relative_unpack"):
         f = ctx.func("_util:" + name)
         c = ctx.cfg(f)
@@ -233,6 +233,12 @@ def run(ctx):
                     rn.lineno, newcur, cp, prefix))
             if not linear.entails_ge0(ln - newcur, cons):
                 problems.append("line %d: returned cursor `%r` is not provably <= len(%s) (no bounds check on this path)" % (rn.lineno, newcur, dp))
+        # a field reader is called once per field: whatever it copies out of the buffer is bounded by the field (both slice
+        # bounds given), never "the rest of the buffer" - decoding n fields would otherwise copy O(n^2) bytes
+        openended = [norm(x) for x in ast.walk(f.node) if isinstance(x, ast.Subscript) and isinstance(x.slice, ast.Slice) and norm(x.value) == dp
+                     and (x.slice.upper is None or x.slice.step is not None)]
+        r.check(not openended, "_util:%s#copies-the-field-only" % name, "the reader slices the input buffer without an upper bound: %s" % openended,
+                where(f, f.node), "a set of n small messages is decoded in time and memory quadratic in the reply size")
         r.check(okfmt and not problems and npaths >= (1 if name == "relative_unpack" else 2), "_util:%s#cursor-monotone" % name,
                 "; ".join(problems) or "length prefix format/size mismatch or no return path", where(f, f.node),
                 "a length < -1 passes `len(data) < cur + n`, the cursor moves backwards and a count-driven decoder "
